@@ -927,6 +927,11 @@ impl<'a> ParseState<'a, &'a str> {
             self.format.task.budget_separator,
             self.format.task.budget_brackets.1,
         )?;
+        // 预算值必须以右括弧收尾 | 否则如`$1`、`$1.`的独立变量会被当作「未闭合的预算值」而非词项
+        self.head_skip_spaces();
+        if !self.starts_with(self.format.task.budget_brackets.1) {
+            return self.err("预算值缺少右括弧");
+        }
         // 验证预算值合法性
         if !p.is_in_01() || !d.is_in_01() || !q.is_in_01() {
             return self.err("「0-1」区间外的值（建议：`0<x<1`）");
